@@ -137,6 +137,12 @@ def _run_laws(desc):
         gv2 = C.xyz2gv(xyz, (om + 25.0) * osign)
         geo2 = C.xyz2geometry(xyz, (om + 25.0) * osign)
         gv3 = C.sf2gv(np.zeros(n), np.zeros(n), om * osign)
+        # ... and a SECOND Ctransform object for another experiment (other wavelength, axis tilts, sense of rotation) made in between does
+        # not change what the first one answers
+        other = tr.Ctransform(dict(pars, wavelength=wvln * 1.7, wedge=wedge + 3.0, chi=chi - 2.0, omegasign=-osign))
+        other.xyz2gv(xyz, om * osign)
+        if not (np.array_equal(C.xyz2gv(xyz, om * osign), gv_kept) and np.array_equal(C.xyz2geometry(xyz, om * osign), geo_kept)):
+            sh.violation("Ctransform:answers-change-when-another-Ctransform-object-is-made", dict(case, omegasign=osign), {})
         if not (np.array_equal(gv, gv_kept) and np.array_equal(geo, geo_kept)):
             sh.violation("Ctransform:earlier-result-overwritten-by-a-later-call", dict(case, omegasign=osign), {})
         elif np.abs(gv2.T - np.dot(rz(-25.0), gv.T)).max() > 1e-11 * modg.max() or np.abs(geo2[:, 3:6].T - np.dot(rz(-25.0), geo[:, 3:6].T)).max() > 1e-11 * modg.max():
